@@ -41,7 +41,7 @@ from valjean.javert.test_report import TestReport
 from valjean.javert.verbosity import Verbosity
 
 from vlib.core import Failure, Outcome, HarnessError, valjean_frame
-from vlib import rstread
+from vlib import rstread, dsutil
 
 ID = 'C12'
 LEVEL = 'exploration'
@@ -200,7 +200,7 @@ def _dataset_case(draw):
             'ndf': None if marginal else draw(st.sampled_from([None, None, 5, 30])),
             'alpha2': 0.01 if marginal else draw(st.sampled_from([0.01, 0.05, 0.2])),
             'bad_bins': bad_bins, 'verb': draw(_VERB), 'rep': draw(_REP),
-            'layout': draw(st.sampled_from(['C', 'C', 'F'])) if len(shape) >= 2 else 'C'}
+            'layout': draw(st.sampled_from(dsutil.LAYOUTS))}
 
 
 @st.composite
@@ -365,8 +365,8 @@ def _make_ds(shape, kinds, val, err, name, shift=0.0, layout='C'):
     bins = _bins(shape, kinds, shift) if kinds else None
     value = np.array(val, dtype=float).reshape(shape)
     error = np.array(err, dtype=float).reshape(shape)
-    if layout == 'F':            # same numbers, Fortran memory order (e.g. a transposed view)
-        value, error = np.asfortranarray(value), np.asfortranarray(error)
+    # same numbers, other memory layout (Fortran order, strided view, negative stride)
+    value, error = dsutil.relayout(value, layout), dsutil.relayout(error, layout)
     return Dataset(value, error, bins=bins, name=name, what='w')
 
 
@@ -687,8 +687,8 @@ def _run_rendering(case, out):
                        'bins=some' if case['bins'] else 'bins=none']
         if 1 in shape:
             out.labels.append('unit-dim')
-        if case.get('layout') == 'F':
-            out.labels.append('fortran-ordered-arrays')
+        if case.get('layout', 'C') != 'C':
+            out.labels.append('layout-' + case['layout'])
         if len(case['dsets']) > 1:
             out.labels.append('nds>1')
     truth = bool(result)                       # read before any rendering
